@@ -51,20 +51,20 @@ struct CpuImpl* CpuAction__cpu0(struct CpuAction* self) __CPROVER_requires(1) __
 
 struct Variable* System__variable_new(struct System* self, struct Action* id, double pen, double bound, unsigned long n)
     __CPROVER_requires(self == &g_sys)
-    __CPROVER_assigns(g_vn_calls, g_vn_pen, g_vn_bound, g_vn_id, g_vn_n, g_var.bound_)
+    __CPROVER_assigns(g_vn_calls, g_vn_pen, g_vn_bound, VF_PT(g_vn_id), g_vn_n, g_var.bound_)
     __CPROVER_ensures(__CPROVER_return_value == &g_var && g_vn_calls == __CPROVER_old(g_vn_calls) + 1 &&
                       EQ(g_vn_pen, pen) && EQ(g_vn_bound, bound) && EQ(g_var.bound_, bound) && g_vn_id == id && g_vn_n == n);
 
 void CpuAction__ctor(struct CpuAction* self, struct Model* model, double cost, _Bool failed, struct Variable* var)
     __CPROVER_requires(__CPROVER_rw_ok(self, sizeof(*self)))
-    __CPROVER_assigns(self->__b_Action, g_ctor_calls, g_ctor_cost, g_ctor_failed, g_ctor_model)
+    __CPROVER_assigns(self->__b_Action, g_ctor_calls, g_ctor_cost, g_ctor_failed, VF_PT(g_ctor_model))
     __CPROVER_ensures(self->__b_Action.variable_ == var && self->__b_Action.model_ == model &&
                       g_ctor_calls == __CPROVER_old(g_ctor_calls) + 1 && EQ(g_ctor_cost, cost) &&
                       g_ctor_failed == failed && g_ctor_model == model &&
                       !self->__b_Action.modified_set_hook_.linked /* a new object's list hooks are unlinked */);
 
 void System__expand(struct System* self, struct Constraint* c, struct Variable* v, double value, _Bool force)
-    __CPROVER_requires(self == &g_sys) __CPROVER_assigns(g_exp_calls, g_exp_cnst, g_exp_var, g_exp_value)
+    __CPROVER_requires(self == &g_sys) __CPROVER_assigns(g_exp_calls, VF_PT(g_exp_cnst), VF_PT(g_exp_var), g_exp_value)
     __CPROVER_ensures(g_exp_calls == __CPROVER_old(g_exp_calls) + 1 && g_exp_cnst == c && g_exp_var == v &&
                       EQ(g_exp_value, value));
 
@@ -84,7 +84,7 @@ void CpuAction__set_state(struct CpuAction* self, int state) __CPROVER_requires(
 void ActionHeap__remove(struct ActionHeap* self, struct Action* a) __CPROVER_requires(1) __CPROVER_assigns(g_hrm_calls)
     __CPROVER_ensures(g_hrm_calls == __CPROVER_old(g_hrm_calls) + 1);
 void ActionHeap__insert(struct ActionHeap* self, struct Action* a, double date, int type) __CPROVER_requires(1)
-    __CPROVER_assigns(g_hins_calls, g_hins_date, g_hins_type, g_hins_action)
+    __CPROVER_assigns(g_hins_calls, g_hins_date, g_hins_type, VF_PT(g_hins_action))
     __CPROVER_ensures(g_hins_calls == __CPROVER_old(g_hins_calls) + 1 && EQ(g_hins_date, date) &&
                       g_hins_type == type && g_hins_action == a);
 /* config::Flag<double>: operator> compares the flag's value, operator double& yields it */
@@ -101,10 +101,10 @@ double* Flag_double__operator_double__(struct Flag_double* self) __CPROVER_requi
   (g_vn_calls == 0 && g_ctor_calls == 0 && g_exp_calls == 0 && g_uvb_calls == 0 && g_uvp_calls == 0 &&                 \
    g_slu_calls == 0 && g_state_calls == 0 && g_hrm_calls == 0 && g_hins_calls == 0)
 #define ALL_GHOSTS                                                                                                     \
-  g_vn_calls, g_vn_pen, g_vn_bound, g_vn_id, g_vn_n, g_var.bound_, g_ctor_calls, g_ctor_cost, g_ctor_failed,           \
-      g_ctor_model, g_exp_calls, g_exp_cnst, g_exp_var, g_exp_value, g_uvb_calls, g_uvb_bound, g_uvp_calls,            \
+  g_vn_calls, g_vn_pen, g_vn_bound, VF_PT(g_vn_id), g_vn_n, g_var.bound_, g_ctor_calls, g_ctor_cost, g_ctor_failed,           \
+      VF_PT(g_ctor_model), g_exp_calls, VF_PT(g_exp_cnst), VF_PT(g_exp_var), g_exp_value, g_uvb_calls, g_uvb_bound, g_uvp_calls,            \
       g_uvp_pen, g_slu_calls, g_state_calls, g_state_arg, g_hrm_calls, g_hins_calls, g_hins_date, g_hins_type,         \
-      g_hins_action
+      VF_PT(g_hins_action)
 
 /* constructor: bound = cores * speed, penalty = 1 / cores, weight 1 on the CPU constraint */
 void CpuCas01Action__ctor(struct CpuCas01Action* self, struct Model* model, double cost, _Bool failed, double speed,
@@ -186,7 +186,7 @@ void NetworkCm02Model__comm_action_set_variable(struct NetworkCm02Model* self, s
                        NET_MODEL.maxmin_system_ == &g_sys && g_route.n <= 1000 && g_back.n <= 1000 && FIN(NA.latency_) &&
                        FIN(NA.lat_current_) && FIN(UB) && FIN(g_gamma) && FIN(NA.__b_Action.last_update_) && GHOSTS0 &&
                        vf_exc == 0)
-    __CPROVER_assigns(NA.__b_Action.variable_, ALL_GHOSTS)
+    __CPROVER_assigns(VF_PT(NA.__b_Action.variable_), ALL_GHOSTS)
     __CPROVER_ensures(vf_exc == 0 && NA.__b_Action.variable_ == &g_var)
     __CPROVER_ensures(g_vn_calls == 1 && g_vn_id == &NA.__b_Action &&
                       g_vn_n == g_route.n + g_back.n + (streamed ? 4UL : 0UL)) /*@ one_constraint_slot_per_link */
